@@ -64,6 +64,9 @@ class Body:
             out = [t["target"]]
         elif k == "switch":
             out = [x[1] for x in t["targets"]] + [t["otherwise"]]
+            dead = self._dead_switch_target(b, t)
+            if dead is not None:
+                out = [x for x in out if x != dead] or out
         elif k in ("drop", "assert"):
             out = [t["target"]]
         elif k == "call":
@@ -81,6 +84,26 @@ class Body:
                 seen.add(x)
                 res.append(x)
         return res
+
+    def _dead_switch_target(self, b, t):
+        """`0 <= x` / `x >= 0` on an unsigned x (as produced for the lower bound of a range pattern `0..=N`) is always true:
+        the false edge of a switch on it cannot be taken."""
+        if t.get("discr_ty") != "bool":
+            return None
+        dl = t["discr"].get("pl", {}).get("l") if t["discr"].get("pl") else None
+        if dl is None:
+            return None
+        for st in reversed(self.blocks[b]["stmts"]):
+            if "pl" in st and st["pl"]["l"] == dl and not st["pl"]["p"]:
+                rv = st["rv"]
+                if rv["k"] == "bin" and rv["op"] in ("Le", "Ge"):
+                    c = rv["l"] if rv["op"] == "Le" else rv["r"]
+                    if c.get("k") == "const" and (c.get("v") == 0 or c.get("tyconst") == "0") and not isinstance(c.get("v"), bool) and str(c.get("ty", "")).startswith("u"):
+                        for v, tgt in t["targets"]:
+                            if v == 0:
+                                return tgt if tgt != t["otherwise"] else None
+                return None
+        return None
 
     def succ_map(self):
         if self._succ is None:
